@@ -193,6 +193,7 @@ package termincommittee
 // satisfies the hash in its signed header (external validity is delegated to the consumer: A-SPI)
 //@ pred ProposalOK(tic *TermInCommittee, ppm *interfaces.PreprepareMessage) = ppm != nil && ppm.content != nil
 //@   | && Signed(tic, ppm.content.SignedHeader(), ppm.content.Sender())
+//@   | && ppm.content.SignedHeader().MessageType() == protocol.LEAN_HELIX_PREPREPARE
 //@   | && ppm.content.Sender().MemberId() == LeaderOf(tic.committeeMembers, ppm.content.SignedHeader().View())
 //@   | && ppm.content.SignedHeader().BlockHeight() == tic.State.height
 //@   | && Commits(tic.blockUtils, ppm.content.SignedHeader().BlockHeight(), ppm.block, ppm.content.SignedHeader().BlockHash())
@@ -208,6 +209,7 @@ package termincommittee
 //@   requires TicOK(tic) && ppm != nil && ppm.content != nil && ppm.content.SignedHeader().BlockHeight() == tic.State.height
 //@   ensures [sound.not-yet-stored] result == nil ==> !ppStored[ppm.content.SignedHeader().View()]
 //@   ensures [sound.signed] result == nil ==> Signed(tic, ppm.content.SignedHeader(), ppm.content.Sender())
+//@   ensures [sound.signed-type] result == nil ==> ppm.content.SignedHeader().MessageType() == protocol.LEAN_HELIX_PREPREPARE
 //@   ensures [sound.from-leader] result == nil ==> ppm.content.Sender().MemberId() == LeaderOf(tic.committeeMembers, ppm.content.SignedHeader().View())
 
 //@ func (*TermInCommittee).processPreprepare
